@@ -14,11 +14,16 @@ from . import frontend
 from . import builtins as B
 
 
-def _pairs(xs):
+NOEXPORT = set()   # (contract short, clause name): proved for the function, not assumed at its call sites
+
+
+def _pairs(xs, owner=None):
     out = []
     for i, x in enumerate(xs or []):
         if isinstance(x, (tuple, list)):
             out.append((x[0], x[1]))
+            if len(x) > 2 and x[2] == "noexport" and owner is not None:
+                NOEXPORT.add((owner, x[0]))
         else:
             out.append(("c%d" % i, x))
     return out
@@ -57,14 +62,14 @@ class Contract:
     def __init__(self, key, prop, types=None, returns=None, requires=(), ensures=(), ensures_exc=(),
                  raises=None, modifies=(), effects=(), loops=None, locals=None, inline=False, funcs=None,
                  ghost=None, mode="prove", unroll=None, comps=None, name=None, setup=(), max_paths=None,
-                 frame=None, lock=None, replay=None, timeout_ms=None):
+                 frame=None, lock=None, replay=None, timeout_ms=None, axioms=(), post_setup=(), pure_result=None, asserts=None):
         self.key = key
         self.prop = prop if isinstance(prop, (list, tuple)) else [prop]
         self.short = name or key.split(":", 1)[1]
         self.types = dict(types or {})
         self.returns = returns
         self.requires = _pairs(requires)
-        self.ensures = _pairs(ensures)
+        self.ensures = _pairs(ensures, self.short)
         self.ensures_exc = _pairs(ensures_exc)
         self.raises = raises
         self.modifies = list(modifies)
@@ -83,6 +88,12 @@ class Contract:
         self.lock = lock
         self.replay = replay
         self.timeout_ms = timeout_ms
+        self.axioms = list(axioms)
+        self.post_setup = list(post_setup)
+        self.asserts = dict(asserts or {})
+        self.pure_result = pure_result
+        if pure_result is not None:
+            self.ensures.append(("pure-result", "result == (%s)" % pure_result))
 
     def raises_list(self):
         return _raises_list(self.raises)
@@ -103,6 +114,10 @@ class Registry:
         self.loop_specs = {}       # function key -> {ordinal: spec}
         self.lemmas = []           # (name, prop, builder)
         self.consts = {}           # spec-level named constants
+        self.ufs = {}
+        self.ghostfuns = {}
+        self.opaques = {}
+        self.assumed = []          # contracts used at call sites but not verified (dependencies)
 
     # --- declaration API used by /verif/contracts/*.py
     def record(self, name, fields, pyclass=None):
@@ -144,9 +159,12 @@ class Registry:
     def aggregate(self, name, maptype, value_expr):
         self.aggregates[name] = (self.types.parse(maptype).name, value_expr)
 
-    def contract(self, key, prop, callee=True, **kw):
+    def contract(self, key, prop, callee=True, verify=True, **kw):
         c = Contract(key, prop, **kw)
-        self.variants.append(c)
+        if verify:
+            self.variants.append(c)
+        else:
+            self.assumed.append(c)
         if callee and key not in self.contracts:
             self.contracts[key] = c
         if c.loops:
@@ -182,6 +200,23 @@ class Registry:
     def lemma(self, name, prop, builder):
         self.lemmas.append((name, prop, builder))
 
+    def uf(self, name, argtypes, rettype):
+        """uninterpreted (ghost) spec function; its defining axioms are given per contract (`axioms=`)"""
+        self.ufs[name] = ([self.types.parse(a) for a in argtypes], self.types.parse(rettype))
+
+    def opaque(self, key, specname, argtypes=None, rettype=None):
+        """callers (and specs, under `specname`) see the repository function `key` only as a deterministic
+        function of its arguments (uninterpreted); its body is verified by its own contract"""
+        if argtypes is not None:
+            self.uf(specname, argtypes, rettype)
+        self.opaques[key] = specname
+
+    def ghostfun(self, name, params, requires=(), ensures=()):
+        """ghost lemma call: `name(args)` in a setup/post_setup statement proves `requires` (named obligations)
+        and then assumes `ensures` for those args.  The implication requires => ensures must be proved
+        separately (R.lemma) or be listed as trusted."""
+        self.ghostfuns[name] = (list(params), list(requires), list(ensures))
+
 
 REG = Registry()
 
@@ -196,6 +231,8 @@ class Verifier:
         self.unroll_bound = unroll_bound
         self.max_paths = max_paths
         self.max_depth = 12
+        self.no_if_conversion = bool(os.environ.get("PYVC_NO_IFCONV"))
+        self.no_patterns = bool(os.environ.get("PYVC_NO_PATTERNS"))
         self.feas_timeout_ms = 400
         self.solver_s = 0.0
         self.queries = 0
@@ -205,6 +242,8 @@ class Verifier:
         self._order_fns = {}
         self._str_fns = {}
         self.cur = None
+        self.check_cache = {}
+        self.keep_alive = []
         self.failed_names = set()
         self.obligation_sites = set()
 
@@ -381,6 +420,26 @@ class Verifier:
 
     # ---------------------------------------------------------------- name resolution
     def spec_name(self, name):
+        if name in self.reg.ufs:
+            argts, rt = self.reg.ufs[name]
+            fn = z3.Function("uf_" + name, *([t.sort() for t in argts] + [rt.sort()]))
+
+            def impl(I, args, kw, argts=argts, rt=rt, fn=fn):
+                return rt.wrap(fn(*[unwrap(a, t) for a, t in zip(args, argts)]))
+            return VFunc("builtin", name, impl=impl)
+        if name in self.reg.ghostfuns:
+            params, reqs, enss = self.reg.ghostfuns[name]
+
+            def gimpl(I, args, kw, params=params, reqs=reqs, enss=enss, name=name):
+                e = Env(None, None)
+                for pn, a in zip(params, args):
+                    e.set(pn, a)
+                for i, rq in enumerate(reqs):
+                    I.path.prove(I.eval_spec(rq, e), "%s/lemma:%s/pre#%d" % (I.cur_obl_prefix(), name, i), "lemma-pre", where=rq)
+                for en in enss:
+                    I.path.assume(I.eval_spec(en, e))
+                return VNone()
+            return VFunc("builtin", name, impl=gimpl)
         if name in self.reg.spec_funcs:
             node, m = self.reg.spec_funcs[name]
             return VFunc("ast", name, node=node, module=m)
@@ -494,7 +553,7 @@ class Verifier:
         c = self.contracts.get(q)
         if c is None or c.inline:
             return None
-        if I.spec:
+        if I.spec and c.pure_result is None:
             return None
         return c
 
@@ -566,6 +625,7 @@ class Verifier:
             if len(self.failed_names) >= self.max_failures:
                 self.worklist[:] = []
                 self.aborted = True
+                raise PathEnd("too many undischarged obligations")
 
     def fallback_prove(self, pc, p):
         from .smt import fallback_prove
@@ -586,6 +646,8 @@ class Verifier:
         self.covered = set()
         self.obligation_sites = set()
         self.failed_names = set()
+        self.check_cache = {}
+        self.keep_alive = []
         self.aborted = False
         self.max_failures = 4
         self.exits = 0
@@ -691,8 +753,10 @@ class Verifier:
                 I.lock_obj = I.lock_owner.fields.get(c.lock["lock"]) if I.lock_owner else None
             for st in c.setup:
                 I.exec_ghost(st, env)
-            for nm, src in c.requires:
+            for src in c.axioms:
                 path.assume(I.eval_spec(src, env))
+            for nm, src in c.requires:
+                path.assume(I.eval_spec(src, env, assume=True))
             I.old_env = I.snapshot_env(env)
             self.cur_inputs = I.old_env
             if not prefix:
@@ -717,6 +781,10 @@ class Verifier:
             if exc is not None:
                 self.check_exceptional_exit(c, I, path, env, exc)
             else:
+                if c.returns is not None:
+                    result = I.coerce_value(result, self.types.parse(c.returns))
+                for st in c.post_setup:
+                    I.exec_ghost(st, env, extra={"result": result})
                 for nm, src in c.ensures:
                     phi = I.eval_spec(src, env, extra={"result": result})
                     path.prove(phi, "%s/post:%s" % (c.short, nm), "post", where=src)
@@ -753,6 +821,10 @@ def exec_ghost(self, st, env, extra=None):
     self.depth += 1
     try:
         self.exec_block(node, e2)
+    except PyRaise as pr:
+        if pr.exc.cls != "NameError":
+            raise Unsupported("ghost statement raised %s: %s" % (pr.exc.cls, st))
+        # a ghost statement that mentions a local not bound on this path is skipped
     finally:
         self.depth -= 1
         self.spec = saved
